@@ -88,11 +88,17 @@ type Conn struct {
 	ServerTLS    *tls.ConnectionState
 	TLSErr       error
 	FirstClear   []byte // first bytes the client wrote in clear (for implicit TLS checks)
+	// ClientBytes is everything the client wrote, in order; TLSStartAt is the offset at which the server side
+	// switched to TLS (-1 = never): bytes before it are cleartext, chunks after it must be TLS records.
+	ClientBytes []byte
+	TLSStartAt  int
+	// PostTLSPlain collects chunks written after the switch to TLS that do not start like a TLS record.
+	PostTLSPlain [][]byte
 }
 
 // NewConn returns a connection on which the server has already queued its greeting.
 func NewConn(s *Session) *Conn {
-	c := &Conn{S: s, WriteFailAt: -1, WriteStallAt: -1}
+	c := &Conn{S: s, WriteFailAt: -1, WriteStallAt: -1, TLSStartAt: -1}
 	return c
 }
 
@@ -207,6 +213,18 @@ func (c *Conn) Write(p []byte) (int, error) {
 func (c *Conn) feed(p []byte) {
 	if len(p) == 0 {
 		return
+	}
+	if c.S.AwaitingTLS() && c.tlsSide == nil && p[0] == 0x16 && c.TLSStartAt < 0 {
+		c.TLSStartAt = len(c.ClientBytes)
+	}
+	if c.ImplicitTLS && c.TLSStartAt < 0 {
+		c.TLSStartAt = 0
+	}
+	c.ClientBytes = append(c.ClientBytes, p...)
+	if c.TLSStartAt >= 0 && len(c.ClientBytes)-len(p) >= c.TLSStartAt {
+		if t := p[0]; t < 0x14 || t > 0x17 {
+			c.PostTLSPlain = append(c.PostTLSPlain, append([]byte{}, p...))
+		}
 	}
 	if c.tlsSide != nil {
 		c.rq = append(c.rq, c.tlsSide.exchange(p)...)
@@ -421,4 +439,22 @@ func (t *tlsSide) stop() {
 		<-t.done
 		t.ended = true
 	}
+}
+
+// Drain returns and removes everything the server has queued for the client, without counting as a client
+// read (used by the TCP bridge).
+func (c *Conn) Drain() []byte {
+	c.mu.Lock()
+	defer c.mu.Unlock()
+	c.start()
+	b := c.rq
+	c.rq = nil
+	return b
+}
+
+// ServerClosed reports whether the server side has closed.
+func (c *Conn) ServerClosed() bool {
+	c.mu.Lock()
+	defer c.mu.Unlock()
+	return c.S.Closed
 }
